@@ -1,3 +1,572 @@
-//! C08 — not built yet.
-pub const BUILT: bool = false;
-pub fn run(_rep: &mut vx::Report) {}
+//! C08 — bounded decoding respects its limit and agrees with full decoding.
+//!
+//! Entry points: `PdfStream::decode_with_limit(&opts, limit)` against `PdfStream::decode(&opts)`.
+//! Oracle (no more than the property says):
+//!  1. a bounded decode never panics (the harness is built with overflow checks on);
+//!  2. a bounded decode returns `Err` or at most `limit` bytes;
+//!  3. for a reference-encoded (well-formed) stream whose every decoding stage fits in the
+//!     limit, the bounded result is `Ok` and equals the unbounded result. When only the final
+//!     output fits but an intermediate stage (the input of a later filter, or the rows before
+//!     a predictor is undone) does not, both `Err` and the full result are accepted — the
+//!     property does not say which — and such cells are counted (`intermediate-only` class);
+//!  4. an unbounded decode never returns more than the documented ceiling
+//!     (`MAX_DECOMPRESSED_SIZE` = 256 MiB in parser/filters.rs).
+//!
+//! Sections
+//!  * `limits`            filter × encoder variant × reference-encoded data × limit ∈ {0,1,n-1,n,n+1,2n,MAX}
+//!  * `limits-chains`     all 36 two-filter chains × data × the same limits (+ around the largest stage)
+//!  * `limits-predictors` Flate/LZW × Predictor {2,10..15} × Colors × BitsPerComponent × Columns × rows × limits
+//!  * `garbage`           ALL byte strings of length ≤4 (ASCII85: ≤5; LZW: ≤5 in thorough) over a 12-byte alphabet
+//!                        chosen per filter, as raw encoded input × limits around the decoded size
+//!  * `predictor-params`  valid carrier, arbitrary pre-predictor rows × hostile /Predictor /Colors
+//!                        /BitsPerComponent /Columns values × limits
+//!  * `bombs` (thorough)  one decompression bomb (300 MiB) per expanding filter
+use crate::util::filt::*;
+use refpdf::filters as rf;
+use serde_json::json;
+use vx::{Ctx, Explore, Report};
+
+pub const BUILT: bool = true;
+
+/// `MAX_DECOMPRESSED_SIZE` as documented in oxidize-pdf-core/src/parser/filters.rs ("256 MB").
+const CEILING: usize = 256 * 1024 * 1024;
+
+const ALPHA: [u8; 10] = [0x00, 0x01, 0x7F, 0x80, 0xFF, b'A', b'~', b'>', b'z', b'T'];
+
+fn all_strings(alpha: &[u8], max_len: usize) -> Vec<Vec<u8>> {
+    let mut out: Vec<Vec<u8>> = vec![vec![]];
+    let mut start = 0;
+    for _ in 0..max_len {
+        let end = out.len();
+        for i in start..end {
+            for &a in alpha {
+                let mut s = out[i].clone();
+                s.push(a);
+                out.push(s);
+            }
+        }
+        start = end;
+    }
+    out
+}
+
+fn limit_menu(sizes: &[usize]) -> Vec<usize> {
+    let mut v = vec![0usize, 1, usize::MAX];
+    for &n in sizes {
+        v.extend([n.saturating_sub(1), n, n + 1, 2 * n]);
+    }
+    v.sort_unstable();
+    v.dedup();
+    v
+}
+
+fn show_limit(l: usize) -> String {
+    if l == usize::MAX { "usize::MAX".into() } else { l.to_string() }
+}
+
+// ---------------------------------------------------------------- known-defect signatures
+
+/// True when, reading `raw` as ASCII85 the way §7.4.3 describes (white space skipped, `z`
+/// between groups, `~>` ends the data, a final partial group padded with `u`), some 5-digit
+/// group reached before the first invalid character has a value above 2^32-1. `drop_second`:
+/// tokenise as the library's `<`-prefix defect does (KF-C07-2: second character lost).
+fn a85_group_overflows_with(raw: &[u8], drop_second: bool) -> bool {
+    let mut s: Vec<u8> = raw.iter().copied().filter(|b| !matches!(b, 9 | 10 | 12 | 13 | 32)).collect();
+    if s.len() >= 2 && s[0] == b'<' {
+        if s[1] == b'~' {
+            s.drain(..2);
+        } else if drop_second {
+            s.remove(1);
+        }
+    }
+    let over = |g: &[u8]| -> bool {
+        let mut d = [84u64; 5];
+        for (i, &c) in g.iter().enumerate() {
+            d[i] = (c - b'!') as u64;
+        }
+        d.iter().fold(0u64, |a, &x| a * 85 + x) > u32::MAX as u64
+    };
+    let mut g: Vec<u8> = Vec::new();
+    let mut i = 0;
+    while i < s.len() {
+        let c = s[i];
+        match c {
+            b'~' => {
+                if s.get(i + 1) != Some(&b'>') {
+                    return false; // malformed end marker: rejected before the partial group is looked at
+                }
+                break;
+            }
+            b'z' if g.is_empty() => {}
+            b'!'..=b'u' => {
+                g.push(c);
+                if g.len() == 5 {
+                    if over(&g) {
+                        return true;
+                    }
+                    g.clear();
+                }
+            }
+            _ => return false,
+        }
+        i += 1;
+    }
+    !g.is_empty() && over(&g)
+}
+fn a85_group_overflows(raw: &[u8]) -> bool {
+    a85_group_overflows_with(raw, false) || a85_group_overflows_with(raw, true)
+}
+
+/// Key of a panic in a bounded decode. Two defects are known by their exact signature; every
+/// other panic keeps a generic key with the panic site.
+fn panic_key(first: F, raw: &[u8], parms: &[(&'static str, i64)], msg: &str) -> String {
+    let overflow = msg.contains("overflow");
+    if overflow && first == F::A85 && a85_group_overflows(raw) {
+        // KF-C08-1
+        return "C08/ascii85-group-above-u32-overflows".into();
+    }
+    let get = |k: &str, d: i64| parms.iter().find(|(n, _)| *n == k).map(|(_, v)| *v).unwrap_or(d);
+    let pred = get("Predictor", 1) as u32;
+    if overflow && (10..=15).contains(&pred) {
+        let bpc = get("BitsPerComponent", 8) as usize;
+        let colors = get("Colors", 1) as usize;
+        if bpc.checked_mul(colors).is_none() {
+            // KF-C08-2
+            return "C08/png-predictor-bpc-times-colors-overflows".into();
+        }
+    }
+    format!("C08/panic-in-bounded-decode@{}", vx::panic_site(msg))
+}
+
+// ---------------------------------------------------------------- the oracle
+
+#[derive(Clone, Copy, PartialEq, Eq, Hash, Debug)]
+enum Obs {
+    Full,
+    Truncated,
+    Rejected,
+    RejectedIntermediateOnly,
+    Bad,
+}
+
+/// Exact tally of observation classes over distinct (stream, limit) cells of the
+/// reference-encoded sections (the explorer re-runs some executions; cells are de-duplicated).
+#[derive(Default)]
+struct Tally {
+    seen: std::sync::Mutex<std::collections::HashSet<u64>>,
+    full: std::sync::atomic::AtomicU64,
+    truncated: std::sync::atomic::AtomicU64,
+    rejected_below_size: std::sync::atomic::AtomicU64,
+    intermediate_only_rejected: std::sync::atomic::AtomicU64,
+    intermediate_only_accepted: std::sync::atomic::AtomicU64,
+    bad: std::sync::atomic::AtomicU64,
+}
+impl Tally {
+    fn add(&self, cell: u64, obs: Obs, intermediate_only: bool) {
+        use std::sync::atomic::Ordering::Relaxed;
+        if !self.seen.lock().unwrap().insert(cell) {
+            return;
+        }
+        match (obs, intermediate_only) {
+            (Obs::Full, true) => self.intermediate_only_accepted.fetch_add(1, Relaxed),
+            (Obs::Full, false) => self.full.fetch_add(1, Relaxed),
+            (Obs::Truncated, _) => self.truncated.fetch_add(1, Relaxed),
+            (Obs::Rejected, _) => self.rejected_below_size.fetch_add(1, Relaxed),
+            (Obs::RejectedIntermediateOnly, _) => self.intermediate_only_rejected.fetch_add(1, Relaxed),
+            (Obs::Bad, _) => self.bad.fetch_add(1, Relaxed),
+        };
+    }
+    fn json(&self) -> serde_json::Value {
+        use std::sync::atomic::Ordering::Relaxed;
+        json!({
+            "cells (reference-encoded stream x limit)": self.seen.lock().unwrap().len(),
+            "limit >= every stage: bounded == unbounded": self.full.load(Relaxed),
+            "limit < decoded size (or both paths reject): Err": self.rejected_below_size.load(Relaxed),
+            "limit < decoded size: Ok with <= limit bytes": self.truncated.load(Relaxed),
+            "decoded size <= limit < largest stage (not judged): Err": self.intermediate_only_rejected.load(Relaxed),
+            "decoded size <= limit < largest stage (not judged): Ok == unbounded": self.intermediate_only_accepted.load(Relaxed),
+            "violating": self.bad.load(Relaxed),
+        })
+    }
+}
+
+/// Evaluate one stream under every limit of `limits`. `wf`: Some((n, n_max)) when the stream
+/// is a reference encoding with final size n and largest stage size n_max. Returns the
+/// observation hash.
+fn eval(c: &mut Ctx, stages: &[Stage], raw: &[u8], wf: Option<(usize, usize)>, limits: &[usize], what: &dyn Fn() -> String, tally: Option<&Tally>) -> u64 {
+    let s = make_stream(stages, raw.to_vec(), false);
+    let first = stages.first().map(|s| s.f).unwrap_or(F::RL);
+    let parms: Vec<(&'static str, i64)> = stages.first().map(|s| s.parms.clone()).unwrap_or_default();
+    let unb = if wf.is_some() { Some(lib_decode(&s)) } else { None };
+    if let Some(Ok(Ok(u))) = &unb {
+        if u.len() > CEILING {
+            c.fail("C08/unbounded-decode-above-ceiling", format!("{} unbounded={} bytes", what(), u.len()));
+        }
+    }
+    let mut oh = 0u64;
+    let mut keys: Vec<String> = Vec::new();
+    let mut fail = |c: &mut Ctx, k: String, d: String| {
+        if !keys.contains(&k) {
+            keys.push(k.clone());
+            c.fail(k, d);
+        }
+    };
+    for &l in limits {
+        let b = lib_decode_limit(&s, l);
+        let obs = match &b {
+            Err(p) => {
+                fail(c, panic_key(first, raw, &parms, p), format!("{} limit={} {}", what(), show_limit(l), short_err(&b)));
+                Obs::Bad
+            }
+            Ok(Ok(v)) if v.len() > l => {
+                fail(c, "C08/bounded-decode-returns-more-than-limit".into(), format!("{} limit={} returned={} bytes", what(), show_limit(l), v.len()));
+                Obs::Bad
+            }
+            Ok(r) => match (wf, &unb) {
+                (Some((n, n_max)), Some(u)) => {
+                    if n_max <= l {
+                        match (r, u) {
+                            (Ok(v), Ok(Ok(w))) if v == w => Obs::Full,
+                            (Ok(v), Ok(Ok(w))) => {
+                                fail(c, "C08/bounded-differs-from-unbounded".into(), format!("{} limit={} bounded={} unbounded={}", what(), show_limit(l), vx::show_bytes(v, 48), vx::show_bytes(w, 48)));
+                                Obs::Bad
+                            }
+                            (Err(_), Ok(Ok(_))) => {
+                                fail(c, "C08/bounded-rejects-well-formed-stream-within-limit".into(), format!("{} limit={} decoded_size={n} largest_stage={n_max} bounded={}", what(), show_limit(l), short_err(&b)));
+                                Obs::Bad
+                            }
+                            (Ok(_), _) => {
+                                fail(c, "C08/bounded-accepts-what-unbounded-rejects".into(), format!("{} limit={} bounded={} unbounded={}", what(), show_limit(l), short_err(&b), short_err(u)));
+                                Obs::Bad
+                            }
+                            // both reject a reference encoding: C07's business, not a disagreement
+                            (Err(_), _) => Obs::Rejected,
+                        }
+                    } else if n <= l {
+                        match (r, u) {
+                            (Ok(v), Ok(Ok(w))) if v != w => {
+                                fail(c, "C08/bounded-differs-from-unbounded".into(), format!("{} limit={} bounded={} unbounded={}", what(), show_limit(l), vx::show_bytes(v, 48), vx::show_bytes(w, 48)));
+                                Obs::Bad
+                            }
+                            (Ok(_), _) => Obs::Full,
+                            (Err(_), _) => Obs::RejectedIntermediateOnly,
+                        }
+                    } else {
+                        match (r, u) {
+                            // the library's own full decoding is shorter than the reference data
+                            // (a C07 matter, e.g. KF-C07-2) and fits: still bounded == unbounded
+                            (Ok(v), Ok(Ok(w))) if v == w => Obs::Full,
+                            (Ok(_), _) => Obs::Truncated,
+                            (Err(_), _) => Obs::Rejected,
+                        }
+                    }
+                }
+                _ => match r {
+                    Ok(_) => Obs::Full,
+                    Err(_) => Obs::Rejected,
+                },
+            },
+        };
+        oh = vx::hmix(oh, vx::h64(&(l, obs)));
+        if let (Some(t), Some((n, n_max))) = (tally, wf) {
+            let cell = vx::h64(&(stages.iter().map(|s| (s.f, s.parms.clone())).collect::<Vec<_>>(), raw, l));
+            t.add(cell, obs, n <= l && l < n_max);
+        }
+    }
+    c.add_evaluations(limits.len() as u64 - 1);
+    oh
+}
+
+pub fn run(rep: &mut Report) {
+    let thorough = rep.tier.is_thorough();
+    rep.rule(
+        "one case = (filter chain + DecodeParms, raw stream bytes) evaluated under every limit of its menu \
+         (each limit is one evaluation); distinct by hash of (chain, parameters, raw bytes); non-trivial = at least \
+         one limit of the menu is below the decoded size and one is at or above it (reference-encoded cases) or the \
+         raw bytes decode to something under usize::MAX (garbage cases)",
+    );
+    rep.assume("well-formed = produced by a reference encoder (refpdf, miniz, weezl); garbage inputs are held only to 'no panic' and '<= limit or Err'");
+    rep.assume("'decodes fully within the limit' is read as: every stage of the chain, including the rows before a predictor is undone, fits in the limit; cells where only the final output fits are counted, not judged");
+    rep.assume("the documented ceiling is MAX_DECOMPRESSED_SIZE = 256 * 1024 * 1024 (parser/filters.rs)");
+    rep.note("ceiling_bytes", json!(CEILING));
+
+    let tally = Tally::default();
+    limits(rep, &tally);
+    limits_chains(rep, &tally);
+    limits_predictors(rep, &tally);
+    if !rep.is_replay() {
+        rep.note("reference_encoded_cells_by_observation", tally.json());
+    }
+    garbage(rep, thorough);
+    predictor_params(rep, thorough);
+    if thorough {
+        bombs(rep);
+    } else {
+        rep.note("bombs", json!("thorough tier only (four 300 MiB expansions)"));
+    }
+}
+
+fn variants_all() -> Vec<(F, usize)> {
+    let mut v = Vec::new();
+    for f in ALL_F {
+        for k in 0..f.variants() {
+            v.push((f, k));
+        }
+    }
+    v
+}
+
+fn limits(rep: &mut Report, tally: &Tally) {
+    let mut data_set = all_strings(&ALPHA, 3);
+    for (k, n) in [(1usize, 5usize), (0, 127), (0, 128), (0, 129), (3, 129), (1, 300), (0, 1000), (3, 1000), (2, 1100), (2, 4200), (0, 16385), (3, 16500), (3, 40000)] {
+        data_set.push(pattern(k, n));
+    }
+    let fv = variants_all();
+    rep.explore("limits", Explore::full(), |c: &mut Ctx| {
+        let which = c.choose("filter-variant", fv.len() + 1);
+        let data = c.pick_from("data", &data_set);
+        let n = data.len();
+        let (stages, raw, label): (Vec<Stage>, Vec<u8>, String) = if which == fv.len() {
+            (vec![], data.clone(), "no filter".into())
+        } else {
+            let (f, var) = fv[which];
+            (vec![Stage::plain(f)], ref_encode(f, var, data), format!("{} ({})", f.short(), f.variant_name(var)))
+        };
+        let lims = limit_menu(&[n]);
+        c.input(vx::h64(&(&label, &raw)));
+        if n > 0 {
+            c.nontrivial();
+        }
+        let what = || format!("filter={label} data_len={n} data={} encoded={}", vx::hex(&data[..n.min(12)]), vx::show_bytes(&raw, 40));
+        let oh = eval(c, &stages, &raw, Some((n, n)), &lims, &what, Some(tally));
+        c.outcome(oh);
+        c.sample(json!({"filter": label, "data_len": n, "limits": lims.iter().map(|&l| show_limit(l)).collect::<Vec<_>>()}));
+    });
+}
+
+fn limits_chains(rep: &mut Report, tally: &Tally) {
+    let mut data_set = all_strings(&ALPHA, 2);
+    data_set.push(b"Test".to_vec());
+    data_set.push(vec![0; 9]);
+    data_set.push(pattern(0, 600));
+    data_set.push(pattern(1, 300));
+    data_set.push(pattern(2, 700));
+    rep.explore("limits-chains", Explore::full(), |c: &mut Ctx| {
+        let f1 = *c.pick_from("first", &ALL_F);
+        let f2 = *c.pick_from("second", &ALL_F);
+        let data = c.pick_from("data", &data_set);
+        let mid = ref_encode(f2, 0, data);
+        let raw = ref_encode(f1, 0, &mid);
+        let (n, n_max) = (data.len(), data.len().max(mid.len()));
+        let lims = limit_menu(&[n, n_max]);
+        let stages = [Stage::plain(f1), Stage::plain(f2)];
+        c.input(vx::h64(&(f1, f2, &raw)));
+        c.nontrivial();
+        let what = || format!("chain=[{} {}] data_len={n} intermediate_len={} data={}", f1.short(), f2.short(), mid.len(), vx::hex(&data[..n.min(12)]));
+        let oh = eval(c, &stages, &raw, Some((n, n_max)), &lims, &what, Some(tally));
+        c.outcome(oh);
+        c.sample(json!({"chain": [f1.short(), f2.short()], "data_len": n, "intermediate_len": mid.len(), "limits": lims.iter().map(|&l| show_limit(l)).collect::<Vec<_>>()}));
+    });
+}
+
+fn limits_predictors(rep: &mut Report, tally: &Tally) {
+    const PREDS: [i64; 7] = [2, 10, 11, 12, 13, 14, 15];
+    const CARRIERS: [F; 3] = [F::Flate, F::Lzw1, F::Lzw0];
+    const BPCS: [usize; 5] = [1, 2, 4, 8, 16];
+    const COLS: [usize; 4] = [1, 2, 5, 17];
+    rep.explore("limits-predictors", Explore::full(), |c: &mut Ctx| {
+        let carrier = *c.pick_from("carrier", &CARRIERS);
+        let predictor = *c.pick_from("predictor", &PREDS);
+        let colors = 1 + c.choose("colors", 4);
+        let bpc = *c.pick_from("bpc", &BPCS);
+        let columns = *c.pick_from("columns", &COLS);
+        let rows = 1 + c.choose("rows", 3);
+        let p = rf::PredParams { predictor, colors, bpc, columns };
+        let rb = p.row_bytes();
+        let data = pattern(3, rb * rows);
+        let predicted = if predictor == 2 {
+            rf::tiff_predict_encode(&data, &p)
+        } else {
+            let base = if predictor == 15 { 4 } else { (predictor - 10) as u8 };
+            rf::png_predict_encode(&data, &p, &|r| (base + r as u8) % 5)
+        };
+        let raw = ref_encode(carrier, 0, &predicted);
+        let (n, n_max) = (data.len(), predicted.len().max(data.len()));
+        let lims = limit_menu(&[n, n_max]);
+        let stages = [Stage { f: carrier, parms: vec![("Predictor", predictor), ("Colors", colors as i64), ("BitsPerComponent", bpc as i64), ("Columns", columns as i64)] }];
+        c.input(vx::h64(&(carrier, predictor, colors, bpc, columns, &raw)));
+        c.nontrivial();
+        let what = || format!("carrier={} Predictor={predictor} Colors={colors} BitsPerComponent={bpc} Columns={columns} rows={rows} decoded_len={n} pre-predictor_len={}", carrier.short(), predicted.len());
+        let oh = eval(c, &stages, &raw, Some((n, n_max)), &lims, &what, Some(tally));
+        c.outcome(oh);
+        c.sample(json!({"carrier": carrier.short(), "Predictor": predictor, "Colors": colors, "BitsPerComponent": bpc, "Columns": columns, "rows": rows, "limits": lims.iter().map(|&l| show_limit(l)).collect::<Vec<_>>()}));
+    });
+}
+
+// ---------------------------------------------------------------- garbage
+
+/// Per-filter 12-byte alphabets: the filter's meta characters, boundary values and one
+/// invalid symbol each.
+fn garbage_alphabet(f: F) -> [u8; 12] {
+    match f {
+        // '!' '"' lowest digits; 's' 't' 'u' highest (s8W-! is 2^32-1); 'z' '~' '>' '<' meta; blank; 'v' and NUL invalid
+        F::A85 => [b'!', b'"', b's', b't', b'u', b'z', b'~', b'>', b'<', b' ', b'v', 0x00],
+        F::AHx => [b'0', b'1', b'9', b'A', b'F', b'a', b'f', b'>', b' ', b'\n', b'g', 0x00],
+        // length bytes: literal 1/2/3/127/128 bytes, EOD, repeat 128/127/3/2 times, and a data byte
+        F::RL => [0x00, 0x01, 0x02, 0x7E, 0x7F, 0x80, 0x81, 0x82, 0xFE, 0xFF, b'A', 0x03],
+        // 9-bit codes: 80 00 = clear, 80 40.. = clear then EOD, FF.. = codes beyond the table
+        F::Lzw1 | F::Lzw0 => [0x00, 0x01, 0x08, 0x10, 0x20, 0x40, 0x60, 0x7F, 0x80, 0x81, 0xC0, 0xFF],
+        // zlib headers 78 9C / 78 DA / 78 01, stored-block and fixed-Huffman starts, gzip magic
+        F::Flate => [0x78, 0x9C, 0xDA, 0x01, 0x03, 0x00, 0xFF, 0x4B, 0x04, 0x63, 0x08, 0x1F],
+    }
+}
+
+fn garbage(rep: &mut Report, thorough: bool) {
+    rep.explore("garbage", Explore::full(), |c: &mut Ctx| {
+        let f = *c.pick_from("filter", &ALL_F);
+        let alpha = garbage_alphabet(f);
+        // ASCII85 works in groups of 5 characters; LZW needs 5 bytes for 4 codes (thorough only: each
+        // LZW decode builds a 258-entry table, 2 x 12^5 x 7 of them is most of the quick budget)
+        let max_len = match f {
+            F::A85 => 5,
+            F::Lzw1 | F::Lzw0 if thorough => 5,
+            _ => 4,
+        };
+        // the first two bytes are choice points, the rest is looped over inside
+        let len = c.choose("len", max_len + 1);
+        let head: Vec<u8> = (0..len.min(2)).map(|_| *c.pick_from("byte", &alpha)).collect();
+        let tails = if len > 2 { all_strings(&alpha, len - 2).into_iter().filter(|t| t.len() == len - 2).collect::<Vec<_>>() } else { vec![vec![]] };
+        let stages = [Stage::plain(f)];
+        let mut ih = 0u64;
+        let mut oh = 0u64;
+        let mut any_ok = false;
+        for t in &tails {
+            let mut raw = head.clone();
+            raw.extend_from_slice(t);
+            ih = vx::hmix(ih, vx::hbytes(&raw));
+            // learn the decoded size with the widest limit, then probe around it
+            let s = make_stream(&stages, raw.clone(), false);
+            let n = match lib_decode_limit(&s, usize::MAX) {
+                Ok(Ok(v)) => {
+                    any_ok = true;
+                    v.len()
+                }
+                _ => 0,
+            };
+            let lims = limit_menu(&[n]);
+            let what = || format!("filter={} raw={} ({})", f.short(), vx::hex(&raw), vx::show_bytes(&raw, 8));
+            oh = vx::hmix(oh, eval(c, &stages, &raw, None, &lims, &what, None));
+        }
+        c.add_evaluations(tails.len() as u64 - 1);
+        c.input(vx::hmix(vx::h64(&(f, len, &head)), ih));
+        c.outcome(oh);
+        if any_ok {
+            c.nontrivial();
+        }
+        c.sample(json!({"filter": f.short(), "len": len, "head": vx::hex(&head), "tails": tails.len()}));
+    });
+}
+
+// ---------------------------------------------------------------- hostile predictor parameters
+
+const P_PRED: [i64; 14] = [15, 1, 2, 10, 11, 12, 0, 3, 9, 16, -1, i64::MAX, i64::MIN, (1 << 32) + 10];
+const P_COLORS: [i64; 11] = [1, 2, 3, 4, 0, -1, 5, 1 << 31, 1 << 32, i64::MAX, i64::MIN];
+const P_BPC: [i64; 11] = [8, 1, 2, 4, 16, 0, -1, 3, 32, 1 << 61, i64::MAX];
+const P_COLS: [i64; 8] = [1, 2, 3, 0, -1, 1 << 32, 1 << 61, i64::MAX];
+
+fn predictor_params(rep: &mut Report, thorough: bool) {
+    // pre-predictor payloads: row-tag bytes 0..5, extremes, and a few longer rows
+    let mut payloads = all_strings(&[0, 1, 2, 3, 4, 5, 0x80, 0xFF], 2);
+    payloads.push(vec![1, 10, 20, 30]);
+    payloads.push(vec![4, 1, 2, 3, 2, 1, 2, 3, 3, 250, 251, 252]);
+    payloads.push(vec![2; 9]);
+    payloads.push(pattern(3, 33));
+    let cfg = if thorough { Explore::full() } else { Explore::dev(2) };
+    rep.note("predictor_params_mode", json!(if thorough { "full product 14x11x11x8" } else { "every combination with at most 2 of the 4 parameters off their default (15,1,8,1)" }));
+    const CARRIERS: [F; 2] = [F::Flate, F::Lzw1];
+    rep.explore("predictor-params", cfg, |c: &mut Ctx| {
+        let carrier = *c.pick_from("carrier", &CARRIERS);
+        let predictor = *c.pick_dev("Predictor", &P_PRED);
+        let colors = *c.pick_dev("Colors", &P_COLORS);
+        let bpc = *c.pick_dev("BitsPerComponent", &P_BPC);
+        let columns = *c.pick_dev("Columns", &P_COLS);
+        let payload = c.pick_from("payload", &payloads);
+        let raw = ref_encode(carrier, 0, payload);
+        let stages = [Stage { f: carrier, parms: vec![("Predictor", predictor), ("Colors", colors), ("BitsPerComponent", bpc), ("Columns", columns)] }];
+        let lims = limit_menu(&[payload.len()]);
+        c.input(vx::h64(&(carrier, predictor, colors, bpc, columns, &raw)));
+        c.nontrivial();
+        let what = || format!("carrier={} Predictor={predictor} Colors={colors} BitsPerComponent={bpc} Columns={columns} pre-predictor bytes={}", carrier.short(), vx::hex(payload));
+        let oh = eval(c, &stages, &raw, None, &lims, &what, None);
+        c.outcome(oh);
+        c.sample(json!({"carrier": carrier.short(), "Predictor": predictor, "Colors": colors, "BitsPerComponent": bpc, "Columns": columns, "payload": vx::hex(payload)}));
+    });
+}
+
+// ---------------------------------------------------------------- bombs
+
+fn bombs(rep: &mut Report) {
+    const TARGET: usize = 300 * 1024 * 1024;
+    const NAMES: [&str; 4] = ["flate", "lzw", "runlength", "ascii85"];
+    rep.note("bombs", json!("one stream per expanding filter whose conforming decoding is 300 MiB of zeros (ASCIIHex cannot expand)"));
+    rep.explore("bombs", Explore::full().threads(4), |c: &mut Ctx| {
+        let k = c.choose("bomb", 4);
+        let (f, raw): (F, Vec<u8>) = match k {
+            0 => {
+                use std::io::Write;
+                let mut e = flate2::write::ZlibEncoder::new(Vec::new(), flate2::Compression::default());
+                let chunk = vec![0u8; 1 << 20];
+                for _ in 0..(TARGET >> 20) {
+                    e.write_all(&chunk).unwrap();
+                }
+                (F::Flate, e.finish().unwrap())
+            }
+            1 => (F::Lzw1, weezl_lzw(&vec![0u8; TARGET], true)),
+            2 => {
+                let mut v = Vec::with_capacity(TARGET / 64 + 1);
+                for _ in 0..TARGET / 128 {
+                    v.extend_from_slice(&[0x81, 0x00]);
+                }
+                v.push(0x80);
+                (F::RL, v)
+            }
+            _ => {
+                let mut v = vec![b'z'; TARGET / 4];
+                v.extend_from_slice(b"~>");
+                (F::A85, v)
+            }
+        };
+        c.input(vx::h64(&(k, raw.len())));
+        c.nontrivial();
+        let s = make_stream(&[Stage::plain(f)], raw, false);
+        let t0 = std::time::Instant::now();
+        let unb = lib_decode(&s);
+        let class = match &unb {
+            Err(p) => {
+                c.fail(format!("C08/panic-in-unbounded-decode@{}", vx::panic_site(p)), format!("bomb={} {}", NAMES[k], vx::one_line(p, 200)));
+                "panic".to_string()
+            }
+            Ok(Ok(v)) if v.len() > CEILING => {
+                c.fail("C08/unbounded-decode-above-ceiling", format!("bomb={} encoded={} bytes decoded={} bytes > {} (MAX_DECOMPRESSED_SIZE)", NAMES[k], s.data.len(), v.len(), CEILING));
+                "above-ceiling".to_string()
+            }
+            Ok(Ok(v)) => format!("ok-{}", v.len()),
+            Ok(Err(_)) => "rejected".to_string(),
+        };
+        drop(unb);
+        // the bounded path on the same bomb, small limit and a limit just above the ceiling
+        let mut oh = vx::h64(&class);
+        for l in [1usize << 20, CEILING + 1] {
+            let b = lib_decode_limit(&s, l);
+            match &b {
+                Err(p) => c.fail(format!("C08/panic-in-bounded-decode@{}", vx::panic_site(p)), format!("bomb={} limit={l} {}", NAMES[k], vx::one_line(p, 200))),
+                Ok(Ok(v)) if v.len() > l => c.fail("C08/bounded-decode-returns-more-than-limit", format!("bomb={} limit={l} returned={}", NAMES[k], v.len())),
+                _ => {}
+            }
+            oh = vx::hmix(oh, vx::h64(&b.as_ref().map(|r| r.as_ref().map(|v| v.len()).map_err(|_| ())).map_err(|_| ())));
+        }
+        c.add_evaluations(2);
+        c.outcome(oh);
+        c.sample(json!({"bomb": NAMES[k], "encoded_bytes": s.data.len(), "unbounded": class, "seconds": (t0.elapsed().as_secs_f64() * 10.0).round() / 10.0}));
+    });
+}
